@@ -118,6 +118,7 @@ func (eng *Engine) verifyFunctionWith(fn *ssa.Function, modes Modes, spec map[st
 	res.Contract = ct
 	g.topCt = ct
 	g.trackEsc = ct != nil && (ct.NoAlloc || ct.NoAllocWhen != nil) && !ct.Trusted && modes.Post
+	g.trackLocks = (modes.Safety || modes.Post) && eng.usesLocks(fn, 1)
 	defer func() {
 		if r := recover(); r != nil {
 			if ce, ok := r.(contractError); ok {
@@ -465,6 +466,9 @@ func (a *Act) run2(args []string, st0 *State, reach0 string) {
 // checkPost emits the postcondition obligations at a return of the top function.
 func (a *Act) checkPost(r retInfo) {
 	g := a.g
+	if g.trackLocks && a.top {
+		g.oblige("lock-balance", a.srcDetail(r.instr), r.reach, fmt.Sprintf("(= %s %s)", g.locksNow(r.st), g.locksNow(g.entry)), a.pos(r.instr.Pos()), "lock balance: the function returns with the mutexes it locked released")
+	}
 	if a.ct == nil || !g.eng.curModes.Post {
 		if g.eng.probes && a.top {
 			g.oblige("PROBE", fmt.Sprintf("return-reachable:%s", a.srcDetail(r.instr)), r.reach, "false", a.pos(r.instr.Pos()), "must-fail reachability probe at return").probe = true
